@@ -142,7 +142,7 @@ Qed.
 Theorem C15_py_render_partial it st text st' : py_write_item uc cfg it st = Ok (text, st') ->
   exists parts,
     text = text_of (c15_file_pieces C15py parts) /\
-    docs_of (c15_file_pieces C15py parts) = map snd (c15_py_item_sites it) /\
+    docs_of (c15_file_pieces C15py parts) = map (c15_site_text C15py) (c15_py_item_sites it) /\
     (Forall (c15_code_neutral C15py) parts ->
      c15_contained C15py LCode (mark (c15_file_pieces C15py parts)) =
      forallb (c15_site_ok C15py) (c15_py_item_sites it)).
